@@ -18,7 +18,8 @@ TConstruct == IsEv("construct") /\ snapshot' = Ev[l].cfg /\ held' = <<>> /\ Cons
 \* caller-side mutations and buffer reuse change nothing the client or earlier results depend on
 TNoEffect == l <= Len(Ev) /\ Ev[l].ev \in {"mutate_caller", "mutate_returned", "scribble", "mutate_result"} /\ UNCHANGED <<snapshot, held>> /\ Consume
 TCall == /\ IsEv("call")
-         /\ Ev[l].route = Route(Ev[l].op, snapshot, Ev[l].a.serial)        \* routing by the snapshot
+         \* routing by the snapshot (a refused call goes nowhere)
+         /\ Ev[l].route = (IF Reject(Ev[l].op, Ev[l].a) THEN [m |-> "none"] ELSE Route(Ev[l].op, snapshot, Ev[l].a.serial))
          /\ Ev[l].a = Ev[l].a_after                                        \* arguments are never modified
          /\ held' = IF Ev[l].ret.t \in {"err", "nil", "panic"} THEN held ELSE Append(held, Ev[l].ret)
          /\ UNCHANGED snapshot /\ Consume
